@@ -287,12 +287,43 @@ def _opaque_norm(v):
     return SymReal(r)
 
 
+def cholesky_exact(M):
+    """Lower-triangular L with L L^T = M (exact real arithmetic): closed form
+    for structurally diagonal matrices of any size and for dense n <= 3."""
+    rows = _matrix_rows(M)
+    n = len(rows)
+
+    def is_zero(v):
+        return not isinstance(v, core.Sym) and v == 0
+    L = [[0.0] * n for _ in range(n)]
+    if all(is_zero(rows[i][j]) for i in range(n) for j in range(n) if i != j):
+        memo = []
+        for i in range(n):
+            v = rows[i][i]
+            hit = [s for (w, s) in memo if w is v]
+            if hit:
+                L[i][i] = hit[0]
+            else:
+                L[i][i] = np.sqrt(v)
+                memo.append((v, L[i][i]))
+        return np.array(L)
+    if n > 3:
+        raise Unsupported("cholesky contract stub: dense matrix with n=%d > 3" % n)
+    for i in range(n):
+        for j in range(i + 1):
+            acc = rows[i][j]
+            for k in range(j):
+                acc = acc - L[i][k] * L[j][k]
+            L[i][j] = np.sqrt(acc) if i == j else acc / L[j][j]
+    return np.array(L)
+
+
 def default_linalg():
     """Opaque defaults for every LAPACK entry a property-preserving edit of
     the repo may switch to (det <-> slogdet, ...): a harness that does not care
     about a value must not trip over which routine produced it."""
     return {'det': _opaque_det, 'slogdet': _opaque_slogdet, 'inv': inv_uninterpreted, 'pinv': inv_uninterpreted,
-            'norm': _opaque_norm}
+            'norm': _opaque_norm, 'cholesky': cholesky_exact}
 
 
 def install_linalg(**impl):
